@@ -161,6 +161,29 @@ func Harness_C13_defer() {
 		cnt[e]--
 		zzsym.Assert(cnt[e] >= 0, "@defer reports no error the plain execution would not report")
 	}
+	// and every failure of the deferred execution is reported, in the payload that delivers its position: an error of
+	// a deferred group belongs to that group's payload, whenever the group happened to finish
+	missing := map[string]int{}
+	for _, e := range want.Errors {
+		missing[e]++
+	}
+	for _, e := range got.errs {
+		missing[e]--
+	}
+	for e, n := range missing {
+		if n > 0 && !c04UnderNull(tree, e) {
+			zzsym.Event("missing error", e)
+			zzsym.Assert(false, "every failure is reported (none is lost with the payload it belongs to)")
+		}
+	}
+	for k, r := range got.resps {
+		if k == 0 {
+			continue
+		}
+		for _, e := range r.Errors {
+			zzsym.Assert(strings.HasPrefix(pathString(e.Path), pathString(r.Path)), "an incremental payload carries only errors of positions below its path")
+		}
+	}
 	zzsym.Event("payloads", strconv.Itoa(len(got.resps)))
 	zzsym.Reach("c13.compared")
 }
